@@ -3,7 +3,7 @@
 //!
 //! ops (see lean/Tbx/Drv/C15.lean):
 //!   G <bfs|dfs> <n> <m> u0 v0 u1 v1 ...   edges sorted by source (CSR order), edge id = position
-//!   new <obj> <srcs> <tgts> | run <obj> <filter> | q <srcs> <tgts> <filter>
+//!   new <obj> <srcs> <tgts> | run <obj> <filter> | q <srcs> <tgts> <filter> | rep <obj> <N> <filter>
 use std::collections::HashMap;
 use tbx_harness::*;
 use toolbox_rs::bfs::BFS;
@@ -195,6 +195,90 @@ fn random_filter(rng: &mut Rng, m: usize) -> Vec<usize> {
     (0..m).filter(|_| rng.chance(p, 100)).collect()
 }
 
+/// segment lengths whose running total hits each of `marks` exactly with the LAST call of a 2-call segment
+/// (so calls mark-1, mark and then mark+1 .. mark+3 are observed individually); role 0 = long silent stretch,
+/// 1 = jitter segment, 2 = segment ending with the mark-th call, 3 = segment right after the mark
+fn segments_hitting(marks: &[usize], jitter: usize) -> Vec<(usize, u8)> {
+    let mut segs = Vec::new();
+    let mut total = 0usize;
+    for &m in marks {
+        let upto = m - 2 - jitter;
+        if upto > total {
+            segs.push((upto - total, 0));
+            total = upto;
+        }
+        if jitter > 0 {
+            segs.push((jitter, 1));
+            total += jitter;
+        }
+        segs.push((2, 2));
+        segs.push((3, 3));
+        total += 5;
+    }
+    segs
+}
+
+fn long_reuse(rng: &mut Rng, tier: Tier, cases: &mut Vec<Case>) {
+    // (edges, sources, targets, reachable specs, unreachable specs); "-" = the unfiltered entry point `run`
+    struct Shape {
+        edges: Vec<(usize, usize)>,
+        s: &'static str,
+        t: &'static str,
+        reach: Vec<&'static str>,
+        unreach: Vec<&'static str>,
+    }
+    let shapes = vec![
+        // diamond with a back edge: two 2-hop paths to 3
+        Shape { edges: vec![(0, 1), (0, 2), (1, 3), (2, 3), (3, 0)], s: "0", t: "3", reach: vec!["-", "0", "1", "3", "0,3"], unreach: vec!["0,1", "2,3", "0,3,1"] },
+        // path of three hops with a self loop and a parallel edge
+        Shape { edges: vec![(0, 1), (0, 1), (1, 1), (1, 2), (2, 3)], s: "0", t: "3", reach: vec!["-", "0", "1", "2"], unreach: vec!["0,1", "3", "4"] },
+        // target unreachable without any filter (edge points the wrong way), 5 nodes, multi-source
+        Shape { edges: vec![(0, 1), (1, 2), (2, 0), (4, 3)], s: "0,1", t: "4", reach: vec![], unreach: vec!["-", "0", "3"] },
+        // multi-target on 5 nodes
+        Shape { edges: vec![(0, 1), (0, 2), (1, 3), (2, 4), (4, 3)], s: "0", t: "3,4", reach: vec!["-", "0", "1", "2,3"], unreach: vec!["0,1", "1,2,3", "0,1,4"] },
+        // empty target set: always true
+        Shape { edges: vec![(0, 1), (1, 2), (2, 0)], s: "0", t: "-", reach: vec!["-", "0", "0,1,2"], unreach: vec![] },
+    ];
+    let marks: Vec<usize> = match tier {
+        Tier::Quick => vec![1 << 8, 1 << 16],
+        Tier::Thorough => vec![1 << 8, 1 << 15, 1 << 16, 1 << 17, 3 << 16],
+    };
+    let variants = match tier {
+        Tier::Quick => 3,
+        Tier::Thorough => 8,
+    };
+    for sh in &shapes {
+        for alg in ["bfs", "dfs"] {
+            for v in 0..variants {
+                let mut c = Case::new("long-reuse");
+                c.op(g_line(alg, &sh.edges));
+                c.op(format!("new a {} {}", sh.s, sh.t));
+                let jitter = if v == 0 { 0 } else { 1 + rng.below(40) as usize };
+                let segs = segments_hitting(&marks, jitter);
+                // variant 0: reachable specs wherever the shape has one, walking through them in order (starting
+                // with the unfiltered `run`); variant 1: long silent stretches unreachable, the calls around the
+                // marks reachable; variant 2: the opposite; further variants: drawn
+                for (i, (n, role)) in segs.iter().enumerate() {
+                    let want_reach = match v {
+                        0 => true,
+                        1 => *role >= 2,
+                        2 => *role < 2,
+                        _ => rng.chance(1, 2),
+                    };
+                    let pool = if (want_reach && !sh.reach.is_empty()) || sh.unreach.is_empty() { &sh.reach } else { &sh.unreach };
+                    let spec = if v == 0 { pool[i % pool.len()] } else { *rng.pick(pool) };
+                    c.op(format!("rep a {n} {spec}"));
+                }
+                // a few ordinary runs at the end, on the same object
+                for spec in sh.reach.iter().chain(sh.unreach.iter()) {
+                    c.op(format!("run a {spec}"));
+                }
+                cases.push(c);
+            }
+        }
+    }
+}
+
 fn generate(rng: &mut Rng, tier: Tier, cases: &mut Vec<Case>) {
     // ---- hand-written shapes (kept in the generator so that they run in every tier)
     // the unit-test graph of bfs.rs / dfs.rs (sorted), single / multi source, empty target set
@@ -278,6 +362,12 @@ fn generate(rng: &mut Rng, tier: Tier, cases: &mut Vec<Case>) {
             cases.push(c);
         }
     }
+    // ---- long histories on ONE object: the same object is run tens of thousands of times (cheap: tiny graphs,
+    //      `rep` observes only the last three calls of a segment and counts the `true` results of all of them).
+    //      Segment lengths are chosen so that the cumulative number of calls on the object passes 2^8 and 2^16
+    //      (thorough: 2^17, 3*2^16) both INSIDE an observed window and inside a silent stretch, and the run
+    //      specs alternate between reachable and unreachable so that stale per-run state shows either way.
+    long_reuse(rng, tier, cases);
     // ---- all filters (every subset of the edge ids) on sampled small multigraphs
     let n_filt = match tier {
         Tier::Quick => 120,
@@ -383,7 +473,7 @@ fn generate(rng: &mut Rng, tier: Tier, cases: &mut Vec<Case>) {
 // ------------------------------------------------------------------------------------------------
 // execution of the real code
 
-fn observe(pfx: &str, srch: &mut Srch, g: &G, filt: Option<&Vec<bool>>, empty_t: bool, obs: &mut Vec<String>) {
+fn observe(pfx: &str, srch: &mut Srch, g: &G, filt: Option<&Vec<bool>>, empty_t: bool, obs: &mut Vec<String>) -> bool {
     let found = srch.run(g, filt);
     obs.push(format!("D {pfx} found={}", if found { 1 } else { 0 }));
     if found && !empty_t {
@@ -392,6 +482,7 @@ fn observe(pfx: &str, srch: &mut Srch, g: &G, filt: Option<&Vec<bool>>, empty_t:
         let it = srch.iter();
         obs.push(format!("F {pfx} np={} ep={} it={}", lst(&np), lst(&ep), lst(&it)));
     }
+    found
 }
 
 fn execute(c: &Case, obs: &mut Vec<String>) {
@@ -451,6 +542,36 @@ fn execute(c: &Case, obs: &mut Vec<String>) {
                 }
                 o.runs += 1;
                 k += 1;
+            }
+            "rep" => {
+                // the same run N times on one object; only the last min(N,3) calls are observed individually
+                // (and compared with a fresh object), all N are counted
+                let g = graph.as_ref().expect("graph");
+                let total: usize = t[2].parse().unwrap();
+                let mk = if t[3] == "-" { None } else { Some(mask(edges.len(), &parse_list(t[3]))) };
+                let o = objs.get_mut(t[1]).expect("object");
+                let empty_t = o.t.is_empty();
+                let observed = total.min(3);
+                let mut trues = 0usize;
+                for _ in 0..(total - observed) {
+                    if o.srch.run(g, mk.as_ref()) {
+                        trues += 1;
+                    }
+                    o.runs += 1;
+                }
+                let k0 = k;
+                for _ in 0..observed {
+                    if observe(&format!("{k}"), &mut o.srch, g, mk.as_ref(), empty_t, obs) {
+                        trues += 1;
+                    }
+                    if o.runs > 0 {
+                        let mut fresh = Srch::new(&alg, &o.s, &o.t, n);
+                        observe(&format!("{k} fresh"), &mut fresh, g, mk.as_ref(), empty_t, obs);
+                    }
+                    o.runs += 1;
+                    k += 1;
+                }
+                obs.push(format!("D r{k0} n={total} true={trues}"));
             }
             "q" => {
                 let g = graph.as_ref().expect("graph");
